@@ -159,6 +159,13 @@ class Gen:
         for Z in sp.dom_Z():
             for _ in range(2 if q else 12):
                 lines.append('Atomic_Factors %d %s %s %s E' % (Z, xapi.hx(rng.choice(sp.energies(Z, 3))), xapi.hx(rng.choice(sp.momenta(2))), xapi.hx(rng.choice([0.0, 1.0, 0.5, -1.0, 10.0]))))
+        # the same wrapper with every subset of output slots (a NULL slot switches a factor — and its argument checks — off in C), at
+        # arguments that are invalid for only some of the factors
+        for Z in ([1, 8, 26, 92, 99, 0, 121] if q else list(sp.dom_Z())[::3]):
+            for E_ in (-1.0, 0.0, 0.0005, 8.0, 20000.0):
+                for q_ in (-1.0, 0.0, 0.5, 1e9):
+                    for mk in range(8):
+                        lines.append('Atomic_FactorsM %d %s %s %s %d E' % (Z, xapi.hx(E_), xapi.hx(q_), xapi.hx(rng.choice([1.0, 0.5, 0.0, -1.0])), mk))
         # crystal queries: every crystal of the catalogue, garbage names, Miller indices incl. 000 and negatives, flags
         names = cat['crystals'] + ['', 'Nope', 'si', 'Si ', sp.mutate('Diamond')]
         hkls = [(0, 0, 0), (1, 1, 1), (2, 2, 0), (-1, 1, 3), (4, 0, 0), (0, 0, 1), (3, -3, 3), (6, 6, 6), (1, 0, -2)]
